@@ -282,23 +282,57 @@ class SexpRenderer:
             return f"(nonce {hexs(n[3])} {self.e(n[4])})"
         raise ValueError(f"unknown recipe node {t}")
 
-    def vars_of(self, n, acc):
-        """variables (keys) mentioned by a node, for the local/global split"""
-        if isinstance(n, Var):
-            acc.add(n.key)
-        elif isinstance(n, Sub):
-            pass
-        elif isinstance(n, (tuple, list)):
+    @staticmethod
+    def falls_through(n) -> bool:
+        """does the block graph PyTeal builds for `n` reach the successor of `n`? (Break/Continue
+        blocks are re-wired to the loop; everything else, Return included, keeps its successor edge)"""
+        if not (isinstance(n, tuple) and n and isinstance(n[0], str)):
+            return True
+        t = n[0]
+        if t in ("break", "continue"):
+            return False
+        if t == "seq":
+            return all(SexpRenderer.falls_through(x) for x in n[1])
+        if t == "if":
+            if n[3] is None:
+                return True
+            return SexpRenderer.falls_through(n[2]) or SexpRenderer.falls_through(n[3])
+        if t == "cond":
+            return any(SexpRenderer.falls_through(b) for _c, b in n[1])
+        if t in ("comment", "pragma"):
+            return n[2] is None or SexpRenderer.falls_through(n[2])
+        if t == "nonce":
+            return SexpRenderer.falls_through(n[4])
+        return True
+
+    def reachable(self, n):
+        """recipe nodes whose code is part of the compiled block graph (dead code after a bare
+        Break/Continue is never visited by the compiler's graph walks)"""
+        if isinstance(n, tuple) and n and isinstance(n[0], str):
+            yield n
+            if n[0] == "seq":
+                for x in n[1]:
+                    yield from self.reachable(x)
+                    if not self.falls_through(x):
+                        break
+                return
+            for x in n[1:]:
+                yield from self.reachable(x)
+        elif isinstance(n, (list, tuple)):
             for x in n:
-                self.vars_of(x, acc)
+                yield from self.reachable(x)
+
+    def vars_of(self, n, acc):
+        """variables (keys) referenced by the compiled code of a node, for the local/global split"""
+        for node in self.reachable(n):
+            for x in node[1:]:
+                if isinstance(x, Var):
+                    acc.add(x.key)
 
     def calls_of(self, n, acc):
-        if isinstance(n, tuple) and n and n[0] == "call":
-            acc.add(n[1].sid)
-        if isinstance(n, (tuple, list)):
-            for x in n:
-                if isinstance(x, (tuple, list)):
-                    self.calls_of(x, acc)
+        for node in self.reachable(n):
+            if node[0] == "call":
+                acc.add(node[1].sid)
 
     def program(self) -> str:
         p = self.prog
